@@ -305,6 +305,9 @@ def check_sign_table(ctx: Ctx, fi: FuncInfo) -> None:
 
 def check_find_type(ctx: Ctx, ft: FuncInfo) -> None:
     perm = ft.params[0]
+    exits = [n for n in walk_no_nested(ft.node) if isinstance(n, (ast.Return, ast.Break, ast.Continue))]
+    if exits:
+        raise AnalysisError(f"{ft.where}: the scan can be left early (`{unparse(exits[0])}` at line {exits[0].lineno}); cannot show that every split of the permutation and of its inverse is examined for every input")
     deques: Dict[str, str] = {}
     for st in ft.body:
         if isinstance(st, (ast.Assign, ast.AnnAssign)):
@@ -692,6 +695,8 @@ def _variants():
         V("insenc-cache-extra-writer", insert_stmt(IE, f"{Q}.is_insertion_encodable_rightmost", "curr = 0", "InsertionEncodablePerms._CACHE.clear()", "after"), "fire", "C13-M1"),
         V("insenc-value-impure", [insert_stmt(IE, None, "class InsertionEncodablePerms: ...", "_CALLS = []", "before"),
                                   replace_stmt(IE, f"{Q}._is_incr_next_incr", "n = len(perm)", "n = len(perm) - len(_CALLS)")], "fire", "C13-M1"),
+        V("verdict-reads-global-flag", [insert_stmt(IE, None, "class InsertionEncodablePerms: ...", "_SEEN_BASES = []", "before"),
+                                        replace_stmt(IE, f"{Q}.is_insertion_encodable_rightmost", "curr = 0", "curr = 0\n_SEEN_BASES.append(1)\nif len(_SEEN_BASES) > 1000:\n    return False")], "fire", "C13-M2"),
         V("poly-ge-9", replace_expr(PO, "PolyPerms.is_polynomial", "len({pol_type for perm in basis for pol_type in PolyPerms._types(perm)}) == 10",
                                     "len({pol_type for perm in basis for pol_type in PolyPerms._types(perm)}) >= 9"), "fire", "C13-X1"),
         V("poly-eq-9", replace_expr(PO, "PolyPerms.is_polynomial", "10", "9"), "fire", "C13-X1"),
@@ -737,3 +742,45 @@ def _variants():
         V("poly-len-permtype", replace_expr(PO, "PolyPerms.is_polynomial", "10", "len(PermType)"), "silent"),
         V("rename-basis-param", rename_local(PO, "PolyPerms.is_polynomial", "basis", "perms"), "silent"),
     ]
+
+
+# ------------------------------------------------------------------------------ M2: no other history-dependent state
+
+
+def rule_m2(ctx: Ctx) -> None:
+    """Besides the two reviewed memo tables, the verdict functions read no mutable module/class level state
+    that anything in the package writes."""
+    repo = ctx.repo
+    # by-name (dynamic) call edges are recorded as assumptions, not followed: following them would drag in
+    # unrelated classes that merely share a method name
+    pur = Purity(repo, follow_dynamic=False)
+    entries = [repo.func("permuta.permutils.finite:is_finite"), repo.need_method("PolyPerms", "is_polynomial"), repo.need_method("PolyPerms", "is_non_polynomial"),
+               repo.need_method("InsertionEncodablePerms", "is_insertion_encodable"), repo.need_method("InsertionEncodablePerms", "is_insertion_encodable_rightmost"),
+               repo.need_method("InsertionEncodablePerms", "is_insertion_encodable_maximum")]
+    reviewed = {"PolyPerms._CACHE", "InsertionEncodablePerms._CACHE"}
+    for e in entries:
+        eff = pur.effects(e)
+        bad = []
+        for f2, n2, why in eff.reasons:
+            if any(r in why for r in reviewed):
+                continue
+            if why.startswith("writes non-local state") and any(r.split(".")[1] in why for r in reviewed):
+                continue
+            bad.append((f2, n2, why))
+        if bad:
+            for f2, n2, why in bad:
+                ctx.violation("C13-M2", f2, n2, f"{e.qual} depends on / changes state outside its arguments: {why}; the verdict may depend on earlier calls", path=[e.where, f2.where])
+        else:
+            ctx.ok("C13-M2", e.where, f"besides the reviewed memo tables the verdict reads and writes no process-wide state ({len(eff.callees)} callees examined)", e.node, e)
+        ctx.dynamic.extend(eff.dynamic)
+
+
+_OLD_RUN = run
+
+
+def run(ctx: Ctx) -> None:  # noqa: F811
+    _OLD_RUN(ctx)
+    ctx.run(rule_m2, ctx)
+
+
+FLOORS["C13-M2"] = 6
